@@ -1291,6 +1291,11 @@ func (l *Listener) packetInput(data []byte, addr net.Addr) {
 		if sn != 0 {
 			return
 		}
+		// an OOB packet carries no sn and is unreliable: a late one from an
+		// earlier conversation must not reset the conversation that replaced it
+		if fecFlag == typeOOB {
+			return
+		}
 		// Close will remove the session from listener's session map,
 		// So we can create a new session with the same addr below.
 		s.Close()
